@@ -19,7 +19,7 @@ MANIFEST = {
             "guard (known finding C06-a, confirmed input). The values "
             "computed by the generated code, signed zeros / NaNs are NOT "
             "decided.",
-    "technique": "must-pass-through over a reviewed obligation table",
+    "technique": "must-pass-through over a reviewed obligation table + refusal-weakening check against the reviewed guard snapshot",
 }
 TABLE = {
     ("ArrayAssignment2LoopsTrans", "validate"): {
